@@ -53,7 +53,17 @@ Plain == { Tag(t, x) : t \in {0, 1, 21, 22, 23, 24, 32, 33, 34, 35, 36, 100, 100
 Refs == { Tag(256, Arr(pre \o <<Tag(25, i)>>)) : pre \in { <<>>, <<Tstr(<<97, 98, 99>>)>>, <<Tstr(<<97, 98, 99>>), Bstr(3, 1)>> }, i \in UInts \cup {NegSm(0), Tstr(<<97>>)} }
    \cup { Tag(25, Sm(0)), Tag(256, Tag(256, Arr(<<Tstr(<<97, 98, 99>>), Tag(25, Sm(0))>>))), Tag(256, Arr(<<Tstr(<<97, 98, 99>>), Tag(25, Sm(0)), Tag(25, Sm(0))>>)) }
 All == MultiDim \cup Typed \cup Bignums \cup Fractions \cup Plain \cup Refs
+\* MessagePack timestamp extension (type -1 = 255): timestamp 32 (fixext4), 64 (fixext8: 30-bit nanoseconds, 34-bit seconds), 96 (ext8 of 12 bytes:
+\* 32-bit nanoseconds, signed 64-bit seconds) with boundary seconds (-2^63, -1, 0, 2^34-1, 2^63-1) and nanoseconds (0, 999999999, 10^9, 2^32-1), and wrong lengths
+S8 == { <<128,0,0,0,0,0,0,0>>, <<255,255,255,255,255,255,255,255>>, <<0,0,0,0,0,0,0,0>>, <<0,0,0,3,255,255,255,255>>, <<127,255,255,255,255,255,255,255>>, <<0,0,0,0,0,0,0,1>> }
+N4 == { <<0,0,0,0>>, <<59,154,201,255>>, <<59,154,202,0>>, <<255,255,255,255>>, <<0,0,0,1>> }
+MsgTs == { <<199, 12, 255>> \o n \o sec : n \in N4, sec \in S8 }
+     \cup { <<215, 255>> \o x : x \in S8 \cup { <<238,107,39,252,0,0,0,1>>, <<238,107,40,0,0,0,0,0>> } }
+     \cup { <<214, 255>> \o n : n \in N4 }
+     \cup { <<199, k, 255>> \o Rep(1, k) : k \in {0, 1, 5, 11, 13} } \cup { <<212, 255, 1>>, <<213, 255, 1, 2>>, <<216, 255>> \o Rep(1, 16) }
 Init == phase = 0 /\ c = [f |-> "none", b |-> <<>>]
-Next == phase = 0 /\ phase' = 1 /\ \E x \in All : c' = [f |-> "cbor", b |-> x]
+Next == /\ phase = 0 /\ phase' = 1
+        /\ \/ \E x \in All : c' = [f |-> "cbor", b |-> x]
+           \/ \E x \in MsgTs : c' = [f |-> "msgpack", b |-> x]
 Emit == phase = 1 => PrintT(ToJson(c))
 =============================================================================
